@@ -31,6 +31,25 @@ class MockKmerFinder:
         return True
 
 
+class ContainedReadKmerFinder:
+    """
+    Wrap the k-mer finder of an adapter that may occur "anywhere".
+
+    A read that is short enough to be aligned entirely *within* such an adapter
+    contains neither end of the adapter (and possibly none of the k-mers the
+    heuristic looks for), so the heuristic cannot rule out a match for it.
+    """
+
+    def __init__(self, kmer_finder, min_length: int):
+        self.kmer_finder = kmer_finder
+        self.min_length = min_length
+
+    def kmers_present(self, sequence: str):
+        return len(sequence) < self.min_length or self.kmer_finder.kmers_present(
+            sequence
+        )
+
+
 class InvalidCharacter(Exception):
     pass
 
@@ -632,12 +651,16 @@ class SingleAdapter(Adapter, ABC):
         if self._debug:
             print(kmer_probability_analysis(positions_and_kmers))
         try:
-            return KmerFinder(
+            kmer_finder = KmerFinder(
                 positions_and_kmers, self.adapter_wildcards, self.read_wildcards
             )
         except ValueError:
             # Kmers too long.
             return MockKmerFinder()
+        if back_adapter and front_adapter:
+            max_errors = int(len(sequence) * self.max_error_rate)
+            return ContainedReadKmerFinder(kmer_finder, len(sequence) + max_errors)
+        return kmer_finder
 
     def __repr__(self):
         return (
